@@ -166,14 +166,30 @@ def main():
             psi = O.circuit_unitary(c.gates, n)[:, 0]
             M = sum(co * O.pauli_label_matrix([(i, p) for i, p in lab], n) for lab, co in op.items())
             exact = float(np.real(psi.conj() @ M @ psi))
+            # every extrapolation method the library offers; the exponential fits get enough scale factors for their
+            # number of parameters, and constants on either side of the exact value
+            long_sfs = [1, 1.5, 2, 2.5, 3, 3.5, 4]
+            k1, k2 = exact - rng.choice([0.3, 1.0, 0.05]), exact + rng.choice([0.3, 1.0, 0.05])
+            extrapolations = [("poly2", Z.create_polynomial_extrapolate(2), [1, 2, 3]),
+                              ("poly1", Z.create_polynomial_extrapolate(1), [1, 3]),
+                              ("exp1", Z.create_exp_extrapolate(1), long_sfs),
+                              ("exp2", Z.create_exp_extrapolate(2), long_sfs),
+                              ("exp_const1", Z.create_exp_extrapolate_with_const(1, k1), long_sfs),
+                              ("exp_const2", Z.create_exp_extrapolate_with_const(2, k2), long_sfs),
+                              ("exp_const_log1_below", Z.create_exp_extrapolate_with_const_log(1, k1), [1, 2, 3]),
+                              ("exp_const_log1_above", Z.create_exp_extrapolate_with_const_log(1, k2), [1, 2, 3]),
+                              ("exp_const_log2_zero", Z.create_exp_extrapolate_with_const_log(2, 0.0), long_sfs)]
             for mname in sorted(methods):
-                for ex_name, ex in (("poly2", Z.create_polynomial_extrapolate(2)), ("poly1", Z.create_polynomial_extrapolate(1))):
-                    sfs = [1, 2, 3] if ex_name == "poly2" else [1, 3]
-                    val = Z.zne(op, c, est, Z.scaling_circuit_folding, ex, sfs, methods[mname]) if False else None
+                for ex_name, ex, sfs in extrapolations:
                     zest = Z.create_zne_estimator(est, sfs, ex, methods[mname])
-                    v = zest(op, GeneralCircuitQuantumState(n, c)).value
-                    res.count(("zne", mname, ex_name, tuple(map(str, describe(c)))), bucket="zne")
-                    if abs(v - exact) > 1e-6:
+                    res.count(("zne", mname, ex_name, tuple(map(str, describe(c)))), bucket="zne:" + ex_name.split("_")[0])
+                    try:
+                        v = zest(op, GeneralCircuitQuantumState(n, c)).value
+                    except Exception as e:  # noqa: BLE001
+                        res.fail(f"crash:zne:{ex_name}:{mname}", f"{type(e).__name__}: {str(e)[:160]} (exact value {exact})",
+                                 {"circuit": describe(c), "scale_factors": sfs})
+                        continue
+                    if not abs(v - exact) <= 1e-6:
                         res.fail(f"sweep:zne:{ex_name}:{mname}", f"ZNE on a noiseless estimator gives {v}, exact {exact}",
                                  {"circuit": describe(c), "scale_factors": sfs})
             rv = Z.richardson_extrapolation(op, c, est, [1, 2, 3], methods["left"]) if hasattr(Z, "richardson_extrapolation") else None
